@@ -267,3 +267,53 @@ Qed.
 
 Lemma counter_today_ok : counter_ok counter_today = true.
 Proof. vm_compute. reflexivity. Qed.
+
+(* ---- the three Model methods ------------------------------------------------------------- *)
+Section ModelCalls.
+Context {A B : Type}.
+Variable fs : fid -> A -> B.                  (* the three user functions on one point          *)
+Variable fvs : fid -> list A -> list B.       (* the same functions called on a batch           *)
+Variable vect : fid -> bool.                  (* Model.vectorised_likelihood / _prior / _prior_unit_hypercube *)
+Variable pmap : forall X Y, (X -> Y) -> list X -> list Y.
+Hypothesis Hvect : forall k, vect k = true -> forall l, fvs k l = map (fs k) l.
+Hypothesis Hpm : forall X Y (g : X -> Y) l, pmap X Y g l = map g l.
+
+(* what a Model method computes: the tree is run with the function m_func, the vectorisation flag
+   m_flag, and - in the pooled branches - the worker-side wrapper m_wrapper *)
+Definition eval_mcall (t : dtree) (c : mcall) (pool : bool) (k np : nat) (l : list A) : list B :=
+  eval_tree (fs (m_func c)) (fvs (m_func c))
+            (fun X Y g x => pmap X Y g x)
+            t {| has_pool := pool; vectorised := vect (m_flag c); chunksize := k; n_pool := np |} l.
+
+Lemma fid_eqb_eq a b : fid_eqb a b = true -> a = b.
+Proof. destruct a, b; cbn; congruence. Qed.
+
+Lemma mcall_sound want c t pool k np l :
+  mcall_ok want c = true -> tree_ok t no_facts = true -> (pool = true -> 1 <= np) ->
+  eval_mcall t c pool k np l = map (fs want) l.
+Proof.
+  unfold mcall_ok. intros H Ht Hnp.
+  repeat (apply andb_prop in H; destruct H as [H ?]).
+  apply fid_eqb_eq in H. match goal with H1 : fid_eqb (m_flag c) want = true |- _ => apply fid_eqb_eq in H1; rename H1 into Hflag end.
+  unfold eval_mcall. rewrite H, Hflag.
+  apply (checker_sound (fs want) (fvs want) (fun X Y g x => pmap X Y g x)
+           {| has_pool := pool; vectorised := vect want; chunksize := k; n_pool := np |}).
+  - cbn. intros Hv. now apply Hvect.
+  - intros; apply Hpm.
+  - cbn. exact Hnp.
+  - exact Ht.
+Qed.
+
+Theorem calls_sound cs t : calls_ok cs = true -> tree_ok t no_facts = true ->
+  forall want c, In (want, c) cs -> forall pool k np l, (pool = true -> 1 <= np) ->
+    eval_mcall t c pool k np l = map (fs want) l.
+Proof.
+  unfold calls_ok. intros H Ht want c Hin pool k np l Hnp.
+  apply andb_prop in H. destruct H as [H _].
+  rewrite forallb_forall in H. specialize (H (want, c) Hin). cbn in H.
+  now apply mcall_sound.
+Qed.
+End ModelCalls.
+
+Lemma calls_today_ok : calls_ok calls_today = true.
+Proof. vm_compute. reflexivity. Qed.
